@@ -6,6 +6,8 @@ import (
 	"strings"
 
 	"gojaverif/core"
+
+	"golang.org/x/tools/go/ssa"
 )
 
 // DebugScript dumps the scriptFree summary (not attached to any property).
@@ -30,6 +32,32 @@ var DebugScript = &core.Rule{Name: "D-SCRIPTFREE", Run: func(p *core.Prog) *core
 	sort.Strings(lines)
 	for _, l := range lines {
 		res.Note("%s", l)
+	}
+	return res
+}}
+
+// DebugCallees prints the resolved callees of every dynamic call in the functions named by DEBUG_FUNCS.
+var DebugCallees = &core.Rule{Name: "D-CALLEES", Run: func(p *core.Prog) *core.Result {
+	res := core.NewResult("D-CALLEES", 0)
+	want := strings.Split(os.Getenv("DEBUG_FUNCS"), ",")
+	for _, f := range p.Funcs {
+		name := core.FuncName(f)
+		for _, w := range want {
+			if w == "" || !strings.Contains(name, w) {
+				continue
+			}
+			core.AllInstrs(f, func(in ssa.Instruction) {
+				c, ok := in.(ssa.CallInstruction)
+				if !ok || c.Common().StaticCallee() != nil {
+					return
+				}
+				var cs []string
+				for _, g := range p.Callees(c) {
+					cs = append(cs, core.FuncName(g))
+				}
+				res.Note("%s %s: %s -> %v", name, p.Pos(c.Pos()), c.Common().String(), cs)
+			})
+		}
 	}
 	return res
 }}
